@@ -250,6 +250,9 @@ class Gen:
         full = wg.catalogue()
         self.cat = [t for t in full if t in KNOWN_TYPES] if KNOWN_TYPES else full
         ctx.extra["catalogue_types_not_in_dispatch"] = len(full) - len(self.cat)
+        if 2 * len(self.cat) < len(full):
+            ctx.tie_broken("the C04 harness knows fewer than half of the catalogue types: regenerate harness/src/bin/c04_dispatch.inc with gen/c04_dispatch.py",
+                           "%d of %d" % (len(self.cat), len(full)))
         self.names = list(self.cat) + list(EXTRA)
         self.n = 0
 
